@@ -316,6 +316,8 @@ impl<RW: QueueRW<T>, T> MultiQueue<RW, T> {
                         // throughput in most cases but will really help latency.
                         // Hopefully the compiler is smart enough to get rid of this
                         // when there's no drop
+                        #[cfg(feature = "multiqueue2_verif")]
+                        crate::verif_hooks::plain_access(&write_cell.val as *const T);
                         let _possible_drop = if RW::do_drop() && !is_tagged(current_tag) {
                             Some(ptr::read(&write_cell.val))
                         } else {
@@ -349,6 +351,8 @@ impl<RW: QueueRW<T>, T> MultiQueue<RW, T> {
             fence(Acquire);
             transaction.commit_direct(1, Relaxed);
             let current_tag = write_cell.wraps.load(Relaxed);
+            #[cfg(feature = "multiqueue2_verif")]
+            crate::verif_hooks::plain_access(&write_cell.val as *const T);
             let _possible_drop = if RW::do_drop() && !is_tagged(current_tag) {
                 Some(ptr::read(&write_cell.val))
             } else {
@@ -410,6 +414,8 @@ impl<RW: QueueRW<T>, T> MultiQueue<RW, T> {
                         continue;
                     }
                 }
+                #[cfg(feature = "multiqueue2_verif")]
+                crate::verif_hooks::plain_access(&read_cell.val as *const T);
                 let rval = dependently_mut(seen_tag, &mut read_cell.val, |rc| RW::get_val(rc));
                 fence(Release);
                 if !is_single {
@@ -445,6 +451,8 @@ impl<RW: QueueRW<T>, T> MultiQueue<RW, T> {
                 }
                 return Err((op, &read_cell.wraps, TryRecvError::Empty));
             }
+            #[cfg(feature = "multiqueue2_verif")]
+            crate::verif_hooks::plain_access(&read_cell.val as *const T);
             dependently_mut(seen_tag, &mut read_cell.val, |rv_ref| {
                 let rval = op(rv_ref);
                 RW::drop_in_place(rv_ref);
